@@ -50,7 +50,7 @@ class C10Check(Check):
 
 reg(C10Check(
     "C10", "c10",
-    coq_targets=["CTree/CTreeConcProofs.vo", "CTree/CTreeConcLin.vo", "CTree/C10Check.vo", "Props/C10.vo"],
+    coq_targets=["CTree/CTreeConcProofs.vo", "CTree/CTreeConcLin.vo", "CTree/CTreeConcAbs.vo", "CTree/C10Check.vo", "Props/C10.vo"],
     assumptions=[
         "values stored in the tree are non-nil",
         "visitor / condition / delete callbacks do not re-enter the tree (as ctree documents for VisitFunc)",
